@@ -62,18 +62,18 @@ func ParseJSONB(data []byte) interface{} {
 }
 
 func parseJSONBObject(data []byte, entries []uint32, dataStart, count int) map[string]interface{} {
-	keys, vals := entries[:count], entries[count:]
-	keysLen := totalLen(keys)
+	// keys and values share one JEntry array: offsets (and the HAS_OFF stride) run over all of it
+	vals := entries[count:]
 
 	result := make(map[string]interface{}, count)
 	for i := 0; i < count; i++ {
-		kOff, kLen := entryOffLen(keys, i, 0)
+		kOff, kLen := entryOffLen(entries, i, 0)
 		key := ""
 		if dataStart+kOff+kLen <= len(data) {
 			key = string(data[dataStart+kOff : dataStart+kOff+kLen])
 		}
 
-		vOff, vLen := entryOffLen(vals, i, keysLen)
+		vOff, vLen := entryOffLen(entries, count+i, 0)
 		result[key] = decodeJEntry(data, dataStart+vOff, vLen, vals[i])
 	}
 	return result
